@@ -278,6 +278,72 @@ func run(r *mc.Run, srvAuth bool, only *in) {
 				}
 			}
 		}
+		// sequences through one listener (one DRKey cache): requests addressed to
+		// different local host addresses must each be judged under their own key
+		if srvAuth {
+			hosts := []netip.Addr{kit.SrvHost, netip.MustParseAddr("10.0.0.9"), netip.MustParseAddr("fd00::1")}
+			mkReq := func(dst netip.Addr, keyOf netip.Addr) []byte {
+				ch := kit.CliHost
+				if dst.Is6() {
+					ch = netip.MustParseAddr("fd00::2")
+				}
+				key := sw.Daemon.HostHostKey(kit.SrvIA, kit.CliIA, keyOf.String(), ch.String())
+				pk := &kit.Pkt{SrcIA: kit.CliIA, DstIA: kit.SrvIA, SrcHost: ch, DstHost: dst, Path: kit.PathSpec{Kind: "empty"}, L4: "udp", SrcPort: 40123, DstPort: uint16(kit.SrvPort),
+					Payload: kit.ClientHeader(w.Clock.Peek()), AuthKey: key, AuthSPI: scion.PacketAuthSPIClient}
+				return pk.Bytes()
+			}
+			verified := func(o *vnet.Datagram, dst netip.Addr) bool {
+				pr, err := kit.Parse(o.Data)
+				if err != nil || pr.E2E == nil || pr.UDP == nil {
+					return false
+				}
+				ao, e := pr.E2E.FindOption(slayers.OptTypeAuthenticator)
+				if e != nil || len(ao.OptData) != scion.PacketAuthOptDataLen {
+					return false
+				}
+				ch := kit.CliHost
+				if dst.Is6() {
+					ch = netip.MustParseAddr("fd00::2")
+				}
+				key := sw.Daemon.HostHostKey(kit.SrvIA, kit.CliIA, dst.String(), ch.String())
+				mac := make([]byte, 16)
+				_, e2 := spao.ComputeAuthCMAC(spao.MACInput{Key: key, Header: slayers.PacketAuthOption{EndToEndOption: ao}, ScionLayer: &pr.SCION, PldType: slayers.L4UDP, Pld: o.Data[len(o.Data)-int(pr.UDP.Length):]}, make([]byte, spao.MACBufferSize), mac)
+				return e2 == nil && bytes.Equal(mac, scion.PacketAuthOptMAC(ao))
+			}
+			for _, a := range hosts {
+				for _, b := range hosts {
+					if a == b {
+						continue
+					}
+					sw.Svc = sw.Start(kit.SrvPort) // fresh listener, fresh key cache
+					i := in{Auth: true, Path: "seq " + a.String() + " then " + b.String(), L4: "udp", DstPort: kit.SrvPort, Sock: "service", AuthOpt: "valid"}
+					r.Evals += 3
+					r.Distinct += 3
+					for step, dst := range []netip.Addr{a, b} {
+						out := sw.Send(sw.Svc, kit.Router, mkReq(dst, dst))
+						if len(w.Panics) > 0 {
+							p := w.Panics[0]
+							w.Panics = nil
+							f := mc.PanicFailure(p.Value, p.Stack)
+							r.Fail(scen, f.Signature, f.Message, i)
+							break
+						}
+						if len(out) != 1 {
+							r.Fail(scen, "verified-request-not-served", fmt.Sprintf("%s: step %d (request addressed to %v, MAC under its own key) got %d replies", i.Path, step, dst, len(out)), i)
+						} else if !verified(out[0], dst) {
+							r.Fail(scen, "reply-authenticator-does-not-verify", fmt.Sprintf("%s: step %d: the reply's authenticator does not verify under the (%v, client) key", i.Path, step, dst), i)
+						}
+					}
+					// addressed to b, MAC under a's key
+					// (with the project's mock keys every pair of hosts shares one key, so the
+					// MAC does verify and there is nothing to reject)
+					if out := sw.Send(sw.Svc, kit.Router, mkReq(b, a)); len(out) != 0 && !scion.UseMockKeys() {
+						r.Fail(scen, "unverified-authenticator-served", fmt.Sprintf("%s: a request addressed to %v with a MAC under the key of %v was served", i.Path, b, a), i)
+					}
+					w.Panics = nil
+				}
+			}
+		}
 		// every single bit of a verified request
 		for _, p := range []kit.PathSpec{{Kind: "empty"}, {Kind: "scion", Segs: []int{2, 2}, CurrINF: 0, CurrHF: 0}} {
 			for _, v6 := range []bool{false, true} {
@@ -328,6 +394,6 @@ func TestCheck(t *testing.T) {
 			}
 			return
 		}
-		r.Extra["rule"] = "runSCIONServer on the service port and the end-host port, DRKey fetcher present/absent: product of {IPv4, IPv6 hosts} x {empty, one-hop, SCION paths with 1-3 segments of 1-3 hops at the first/last/cross-over (thorough: every) position} x {UDP/NTP, SCMP echo, traceroute, error, unknown, other L4} x L4 destination port {service, 30041, other} x receiving socket x authenticator {absent, valid, wrong key, server SPI}; plus every single-bit flip of a verified request (2 paths x 2 families)"
+		r.Extra["rule"] = "runSCIONServer on the service port and the end-host port, DRKey fetcher present/absent: product of {IPv4, IPv6 hosts} x {empty, one-hop, SCION paths with 1-3 segments of 1-3 hops at the first/last/cross-over (thorough: every) position} x {UDP/NTP, SCMP echo, traceroute, error, unknown, other L4} x L4 destination port {service, 30041, other} x receiving socket x authenticator {absent, valid, wrong key, server SPI}; plus every single-bit flip of a verified request (2 paths x 2 families) and all ordered pairs of requests addressed to different local host addresses through one listener (one DRKey cache)"
 	})
 }
